@@ -47,6 +47,15 @@ Definition run_find (args : list Z) : list Z :=
   | _ => bad_case
   end.
 
+(* 103: same as 101, evaluated by the continuation-passing search *)
+Definition run_findk (args : list Z) : list Z :=
+  match (dlet ce <- d_env ; dlet t <- d_tree ; dlet rtl <- d_bool ; dlet start <- d_z ;
+         dlet prev <- d_z ; dlet fuel <- d_nat ; d_ret (ce, t, rtl, start, prev, fuel)) args with
+  | Some ((ce, t, rtl, start, prev, fuel), []) =>
+      e_match (ce_slots ce) (findk (ce_env ce) fuel t rtl start prev)
+  | _ => bad_case
+  end.
+
 (* 102: tree, has_capmap, capmap pairs, capsize -> codes, strings, trackcount, quick codes, slots in use *)
 Definition run_write (args : list Z) : list Z :=
   match (dlet t <- d_tree ; dlet hm <- d_bool ; dlet m <- d_list (d_pair d_z d_z) ; dlet cs <- d_z ;
@@ -63,4 +72,5 @@ Definition run_write (args : list Z) : list Z :=
 Definition run01 (leg : Z) (args : list Z) : list Z :=
   if leg =? 101 then run_find args
   else if leg =? 102 then run_write args
+  else if leg =? 103 then run_findk args
   else bad_case.
